@@ -34,8 +34,10 @@ def step (s : St) (f : List String) : St × String :=
       let req : Req := {
         method := m,
         requestURI := t, url := { scheme := "http", host := "@" ++ be }, host := host, remoteAddr := peer,
-        tls := Driver.kvNat f "tls" 0 = 1, header := hdr, bodyLen := n }
+        tls := Driver.kvNat f "tls" 0 = 1, header := hdr, bodyLen := n, formParsed := Driver.kvNat f "form" 0 = 1 }
       -- the Go server has parsed the target with the same function before any handler runs
+      -- a target form the URL model does not cover: say so instead of predicting
+      if !modelledTarget t then some "unmodelled" else
       match parseRequestURI t with
       | none => some "400 be=-"
       | some pu =>
